@@ -16,6 +16,7 @@ def run(ctx):
     R3 = ctx.rule('C11.R3', 'string tokens are accepted only after utf8::validate over the whole decoded string; control characters rejected')
     R4 = ctx.rule('C11.R4', 'a duplicate object key leads to the error state before anything is stored')
     R5 = ctx.rule('C11.R5', 'string writer (generic_append) is exact against RFC 8259 section 7: every byte sequence of length 1 and 2 is written as a quoted string that decodes back to it, with ", \\ and U+0000..U+001F escaped (E3)')
+    R8 = ctx.rule('C11.R8', 'parsed strings keep their length: the parser never hands a token to a NUL-terminated (char const *) interface, so names and values containing \\u0000 are stored whole')
     R6 = ctx.rule('C11.R6', 'numbers are written / read under the C locale: write() brackets write_value(), the tokenizer brackets the stream; every public writer goes through write()')
     R7 = ctx.rule('C11.R7', 'integer / float extraction returns only past the round-trip / range comparison')
 
@@ -318,10 +319,46 @@ def run(ctx):
         ctx.check(not extra, R5, 'parse_string:no-extra-escapes', 'escape letters outside RFC 8259 accepted: %s' % [chr(x) if isinstance(x, int) else x for x in extra], pstr.loc(esc))
         ctx.check(got.get('default') == ('reject',), R5, 'parse_string:unknown-escape-rejected', 'an unknown escape letter is not rejected', pstr.loc(esc))
     ctx.trust('RFC 8259 section 7 decoder embedded in rules/C11.py (C11.R5); the two appender structs are modelled as an emission log')
+
+    # ---------------- R8 no NUL-truncating conversion of parsed text
+    def cstr_narrowings(f):
+        """calls in f that receive `x.c_str()` / `x.data()` of a std::string as a `const char *` parameter without a length / end companion"""
+        out = []
+        for i in f.calls():
+            n = f.N(i)
+            if n['k'] == 'CXXMemberCallExpr' and q.short_of(f.callee(i)) in ('c_str', 'data') and 'basic_string' in (f.callee(i) or ''):
+                # the call (or constructor) that consumes the pointer
+                par = f.parent.get(i)
+                while par is not None and f.N(par)['k'] in ('ImplicitCastExpr', 'ParenExpr', 'MaterializeTemporaryExpr', 'CXXBindTemporaryExpr', 'ExprWithCleanups'):
+                    par = f.parent.get(par)
+                if par is None or f.N(par)['k'] not in model.CALL_KINDS:
+                    continue
+                args = f.args(par)
+                mine = [a for a in args if i in set(f.walk(a))]
+                if not mine or f.strip(mine[0]) != i:
+                    continue          # pointer arithmetic such as s.c_str()+s.size(): the length travels along
+                src = f.ref_of(f.obj(i)) or '.'.join(f.access_path(f.obj(i)) or ())
+                others = [a for a in args if a is not mine[0]]
+                has_len = any(any(q.short_of(f.callee(j)) in ('size', 'length', 'c_str', 'data', 'end') for j in f.calls(a)) for a in others)
+                if not has_len:
+                    out.append((par, i, src))
+        return out
+    tk = [f for f in P.fns.values() if 'tockenizer' in (f.record or '') and f.entry is not None]
+    sites = []
+    for f in [ps] + tk:
+        sites += [(f, par, src) for (par, i, src) in cstr_narrowings(f)]
+    for k, (f, par, src) in enumerate(sites):
+        ctx.check(False, R8, '%s:c_str-to-%s#%d' % (f.short, q.short_of(f.callee(par)) or '?', k), 'parsed text %s is passed as a NUL-terminated string to %s: an embedded \\u0000 truncates it' % (src, f.callee(par)), f.loc(par))
+    ctx.check(True, R8, 'parser:functions-scanned:%d' % (1 + len(tk)), loc=ps.where, detail={'functions': [ps.short] + sorted(f.short for f in tk)})
+    # positive control: the detector must see the (legitimate, path-string) conversion in value::find(std::string const &)
+    ctl = [f for f in P.by_bname.get(J + '::value::find', []) if 'basic_string' in f.id]
+    ctx.require(ctl and cstr_narrowings(ctl[0]), 'C11.R8: the c_str() detector no longer matches its positive control value::find(std::string const &)')
+    ctx.check(True, R8, 'detector:positive-control:value::find', loc=ctl[0].where)
     ctx.floor(R1, 8)
     ctx.floor(R2, 4)
     ctx.floor(R3, 4)
     ctx.floor(R4, 3)
     ctx.floor(R5, 10)
+    ctx.floor(R8, 2)
     ctx.floor(R6, 7)
     ctx.floor(R7, 10)
